@@ -50,6 +50,10 @@ class StepBudgetExceeded(BaseException):
     pass
 
 
+class SimKilled(BaseException):
+    """SIGKILL / power loss at a planned step: nothing of the tool runs after this point."""
+
+
 class EventBudgetExceeded(BaseException):
     pass
 
@@ -103,7 +107,7 @@ def resolve_faults(faults, twin, bufsize=4096):
             else:
                 at = f.get("at_byte", 0)
             c["at_byte"] = max(0, min(at, max(0, n - 1)))
-        elif op in ("interrupt", "memerror"):
+        elif op in ("interrupt", "memerror", "kill"):
             n = max(1, twin.get("steps", 1))
             c["at_step"] = max(1, min(n, (n * f["permille"]) // 1000))
         out.append(c)
@@ -468,10 +472,17 @@ class _OverlayWriter(io.BytesIO):
         super().__init__()
         self._ov = overlay
         self._ap = ap
+        self._initial_len = len(initial) if append else 0
+        self._flushed = 0
         if initial:
             self.write(initial)
             if not append:
                 self.seek(0)
+
+    def flush(self):
+        if not self.closed:
+            self._flushed = len(self.getvalue())  # an explicit flush makes everything so far durable
+        return super().flush()
 
     def close(self):
         if not self.closed:
@@ -519,6 +530,8 @@ class Sim:
         self.clock_reads = 0
         self.git_calls = 0
         self.repo_writes = []
+        self.lines_hit = set()
+        self.open_writers = []
         self.overlay = overlay if overlay is not None else Overlay()
         self.access_count = {}
         faults = plan.get("faults") or []
@@ -533,7 +546,8 @@ class Sim:
             # unbuffered text layer ignores it, the data is gone and nobody is told.
             self.faults = [f for f in self.faults if not (f["op"] == "write" and f["kind"] in ("short", "EAGAIN"))]
         self.write_faults = [f for f in self.faults if f["op"] == "write"]
-        self.step_faults = [f for f in self.faults if f["op"] in ("interrupt", "memerror")]
+        self.step_faults = [f for f in self.faults if f["op"] in ("interrupt", "memerror", "kill")]
+        self.kill_snapshot = None
         self.next_step_fault = None
         self.arm_step_faults()
 
@@ -886,6 +900,7 @@ class Sim:
         elif "r" in mode and not exists:
             raise _oserror("ENOENT", os.fspath(file))
         w = _OverlayWriter(ov, ap, initial, append=("a" in mode))
+        self.open_writers.append(w)
         if "b" in mode:
             return w
         enc = kw.get("encoding") or (a[1] if len(a) > 1 else None) or "utf-8"
@@ -957,6 +972,7 @@ class Sim:
     def local_tracer(self, frame, event, arg):
         if event == "line":
             self.steps += 1
+            self.lines_hit.add(frame.f_lineno)
             if self.steps > self.step_budget:
                 raise StepBudgetExceeded()
             if self.next_step_fault is not None and self.steps >= self.next_step_fault:
@@ -977,7 +993,24 @@ class Sim:
             # Raised asynchronously in this very thread (like a signal handler would), not from
             # the trace function itself: an exception escaping a trace function switches tracing
             # off, and the step budget must stay armed for the rest of the run.
-            exc = KeyboardInterrupt if f["op"] == "interrupt" else MemoryError
+            if f["op"] == "kill":
+                # What is on "disk" at this instant is all that survives: files the tool has
+                # closed, plus - for files it still has open - whole 8 KiB blocks of what it wrote
+                # (CPython's file buffer; the unflushed tail dies with the process).  Whatever the
+                # tool does while the exception unwinds (finally blocks, context managers) would
+                # not have happened, so the overlay is put back to this snapshot afterwards.
+                ov = self.overlay
+                snap = dict(ov.files)
+                for w in self.open_writers:
+                    if not w.closed:
+                        v = w.getvalue()
+                        new = len(v) - w._initial_len
+                        snap[w._ap] = v[: max(w._flushed, w._initial_len + (new // 8192) * 8192)]
+                        self.probe("torn_write_of_tool_file")
+                self.kill_snapshot = (snap, set(ov.removed), set(ov.dirs), dict(ov.mtime))
+                exc = SimKilled
+            else:
+                exc = KeyboardInterrupt if f["op"] == "interrupt" else MemoryError
             ctypes.pythonapi.PyThreadState_SetAsyncExc(ctypes.c_ulong(threading.get_ident()), ctypes.py_object(exc))
             return
 
@@ -1153,6 +1186,10 @@ class Sim:
                 sys.settrace(None)
                 hang = True
                 exc_name = "EventBudgetExceeded"
+            except SimKilled:
+                sys.settrace(None)
+                status = 137
+                exc_name = "SimKilled"
             except BaseException as e:  # uncaught exception: CPython prints it and exits 1
                 sys.settrace(None)
                 status = 130 if isinstance(e, KeyboardInterrupt) else 1
@@ -1199,6 +1236,19 @@ class Sim:
             sys.stdout = saved["stdout"]
             sys.argv = saved["argv"]
             os.chdir(saved["cwd"])
+        # Files the tool still had open for writing when it ended: a process that exits (even
+        # through an uncaught exception or SIGINT) closes and flushes them.  A killed process does
+        # not: the overlay goes back to what was on "disk" at the instant of the kill.
+        for w in self.open_writers:
+            if not w.closed:
+                try:
+                    w.close()
+                except Exception:
+                    pass
+        if self.kill_snapshot is not None:
+            ov = self.overlay
+            ov.files, ov.removed, ov.dirs, ov.mtime = self.kill_snapshot
+            status = 137  # whatever the unwinding made of it, the process was killed
         data = bytes(raw.accepted)
         self.log("exit", status=status, hang=hang, out_len=len(data), raw_writes=raw.calls)
         out_sha = hashlib.sha256(data).hexdigest()
@@ -1227,6 +1277,7 @@ class Sim:
             "clock_reads": self.clock_reads,
             "git_calls": self.git_calls,
             "repo_writes": self.repo_writes,
+            "lines_hit": sorted(self.lines_hit),
             "overlay_digest": self.overlay.digest(),
             "overlay_files": sorted(self.relproj(f) or f for f in self.overlay.files),
             "probes": self.probes,
@@ -1270,7 +1321,12 @@ def run_session(invocations, step_budget=DEFAULT_STEP_BUDGET, event_cap=DEFAULT_
     overlay = Overlay()
     out = []
     for inv in invocations:
-        sim = Sim(inv, overlay=overlay, step_budget=step_budget, event_cap=event_cap)
+        twin = None
+        if inv.get("faults"):
+            fresh = dict(inv, faults=[])
+            fres, _ = Sim(fresh, step_budget=step_budget, event_cap=event_cap).run()
+            twin = footprint(fres)
+        sim = Sim(inv, twin=twin, overlay=overlay, step_budget=step_budget, event_cap=event_cap)
         out.append(sim.run())
     return out
 
@@ -1284,3 +1340,20 @@ def footprint(res):
         "out_len": res["out_len"],
         "steps": res["steps"],
     }
+
+
+def executable_lines(path):
+    """Line numbers of the tool that carry code (from the compiled code objects)."""
+    with open(path, "rb") as f:
+        code = compile(f.read(), path, "exec")
+    lines = set()
+    todo = [code]
+    while todo:
+        c = todo.pop()
+        for _, _, ln in c.co_lines():
+            if ln is not None:
+                lines.add(ln)
+        for k in c.co_consts:
+            if hasattr(k, "co_lines"):
+                todo.append(k)
+    return lines
